@@ -103,38 +103,7 @@ func runC11(ctx *core.Ctx) {
 	ctx.Rule("R2", "data file committed by its last byte (C12.P1, re-checked here in summary form): the only direct write to the data file is dominated by the digest comparison", 1)
 	reuseAfterRehash(ctx, "R3")
 
-	pidx := ctx.Need("R1", "cache", "(*Cache).putIndexEntry")
-	if pidx != nil {
-		g := graph(p, pidx)
-		for _, open := range g.Calls("os.OpenFile") {
-			flags, ok := ssax.PossibleInts(open.Call.Args[1])
-			bad := !ok
-			for _, fl := range flags {
-				if fl&(osFlag(p, "O_TRUNC")|osFlag(p, "O_APPEND")) != 0 {
-					bad = true
-				}
-			}
-			ctx.Check(!bad, "R1", "cache.putIndexEntry#open-flags", open.Pos(), "index file opened with flags %v: no O_TRUNC (a concurrent reader would see an empty entry) and no O_APPEND", flags)
-			f := ssax.Extracted(open, 0)
-			fm := fileMethodCalls(g, f)
-			var wr *ssa.Call
-			for _, n := range []string{"WriteString", "Write"} {
-				for _, c := range fm[n] {
-					wr = c
-				}
-			}
-			for k, t := range fm["Truncate"] {
-				okT := wr != nil && ssax.KnownNil(g.FactsAtInstr(t), errOf(wr), true)
-				// argument = len(entry written)
-				okLen := wr != nil && ssax.DerivedFrom(t.Call.Args[1], isLenOf(wr.Call.Args[1]), nil)
-				ctx.Check(okT && okLen, "R1", "cache.putIndexEntry#truncate"+itoa(k+1), t.Pos(), "Truncate only after a successful write (%v) and to the length of the entry written (%v)", okT, okLen)
-			}
-			// os.WriteFile / ioutil would truncate first
-		}
-		for _, c := range g.Calls("os.WriteFile", "io/ioutil.WriteFile", "os.Create") {
-			ctx.Bad("R1", "cache.putIndexEntry#truncating-writer", c.Pos(), "%s truncates the entry before writing it", ssax.CalleeName(&c.Call))
-		}
-	}
+	indexRewriteRules(ctx)
 	// R2 summary
 	if cpf := ctx.Need("R2", "cache", "(*Cache).copyFile"); cpf != nil {
 		g := graph(p, cpf)
@@ -180,5 +149,67 @@ func runC11(ctx *core.Ctx) {
 	}
 	if bad == 0 {
 		ctx.OK("R4", "cache#no-shared-writes", token.NoPos, "no unguarded store to Cache fields or package variables in the %d functions reachable from the Put/Get entry points", nf)
+	}
+}
+
+// indexRewriteRules implements R1 (shared by C05's repair clause and C11).
+func indexRewriteRules(ctx *core.Ctx) {
+	p := ctx.P
+	pidx := ctx.Need("R1", "cache", "(*Cache).putIndexEntry")
+	if pidx != nil {
+		g := graph(p, pidx)
+		for _, open := range g.Calls("os.OpenFile") {
+			flags, ok := ssax.PossibleInts(open.Call.Args[1])
+			bad := !ok
+			for _, fl := range flags {
+				if fl&(osFlag(p, "O_TRUNC")|osFlag(p, "O_APPEND")) != 0 {
+					bad = true
+				}
+			}
+			ctx.Check(!bad, "R1", "cache.putIndexEntry#open-flags", open.Pos(), "index file opened with flags %v: no O_TRUNC (a concurrent reader would see an empty entry) and no O_APPEND", flags)
+			f := ssax.Extracted(open, 0)
+			fm := fileMethodCalls(g, f)
+			var wr *ssa.Call
+			for _, n := range []string{"WriteString", "Write"} {
+				for _, c := range fm[n] {
+					wr = c
+				}
+			}
+			// the truncate-after-write must be there: without O_TRUNC it is the only thing that removes a
+			// stale tail left by earlier damage, and an over-long entry is rejected by the reader
+			okRepair := wr != nil && len(fm["Truncate"]) > 0
+			if okRepair {
+				werr := errOf(wr)
+				ex := &ssax.Explorer{G: g, Assume: func(v ssa.Value, nilness bool) ssax.Abs {
+					if nilness && v == werr {
+						return ssax.True // the write succeeded
+					}
+					return ssax.Unknown
+				}, Visit: func(i ssa.Instruction) ssax.Action {
+					for _, t := range fm["Truncate"] {
+						if i == ssa.Instruction(t) {
+							return ssax.Stop
+						}
+					}
+					return ssax.Continue
+				}}
+				for _, e := range ex.Run(ssax.PointAfter(wr)) {
+					if e.Kind == ssax.ExitReturn {
+						okRepair = false // a return reached after a successful write without truncating
+					}
+				}
+			}
+			ctx.Check(okRepair, "R1", "cache.putIndexEntry#truncate-present", open.Pos(), "every successful index write is followed by a Truncate to the entry length (a later Put thereby repairs an over-long, damaged entry file)")
+			for k, t := range fm["Truncate"] {
+				okT := wr != nil && ssax.KnownNil(g.FactsAtInstr(t), errOf(wr), true)
+				// argument = len(entry written)
+				okLen := wr != nil && ssax.DerivedFrom(t.Call.Args[1], isLenOf(wr.Call.Args[1]), nil)
+				ctx.Check(okT && okLen, "R1", "cache.putIndexEntry#truncate"+itoa(k+1), t.Pos(), "Truncate only after a successful write (%v) and to the length of the entry written (%v)", okT, okLen)
+			}
+			// os.WriteFile / ioutil would truncate first
+		}
+		for _, c := range g.Calls("os.WriteFile", "io/ioutil.WriteFile", "os.Create") {
+			ctx.Bad("R1", "cache.putIndexEntry#truncating-writer", c.Pos(), "%s truncates the entry before writing it", ssax.CalleeName(&c.Call))
+		}
 	}
 }
